@@ -729,6 +729,7 @@ class Program:
         self.ops = []        # ("u", matrix, wires) | ("measure", wire, creg, bit) | ("reset", wire) | ("if", conds, [ops])
         self.nqubits = 0
         self.n_gate_statements = 0
+        self.n_params = 0     # number of printed real parameters over all gate statements
         self.gate_names_used = {}
         self.identifiers = set()
         self._mcache = {}
@@ -823,6 +824,7 @@ def parse(text, lenient_gates=False):
                     raise QasmError("semantic", "gate %r applied to a repeated qubit" % name, line)
                 out.append(("u", m, wires))
             prog.n_gate_statements += 1
+            prog.n_params += len(params)
             prog.gate_names_used[name] = prog.gate_names_used.get(name, 0) + 1
         elif st[0] == "measure":
             _, q, c, line = st
